@@ -592,6 +592,8 @@ class OutputSchemaBuilder(
         # Share the same cache for input_builder in order to share scalar types
         self.input_builder._cache_by_name = self._cache_by_name
         self.get_flattened: Optional[Callable[[Any], Any]] = None
+        # unions named after their members: the same union met twice is one type
+        self._unions: Dict[Tuple[str, Optional[str]], graphql.GraphQLUnionType] = {}
 
     def _field_serialization_method(self, field: ObjectField) -> SerializationMethod:
         return partial_serialization_method_factory(
@@ -811,6 +813,12 @@ class OutputSchemaBuilder(
             types = [factory.raw_type for factory in results]
             if name is None:
                 name = self.union_name_factory([t.name for t in types])
+                union = self._unions.get((name, description))
+                if union is not None and list(union.types) == types:
+                    return union
+                union = graphql.GraphQLUnionType(name, types, description=description)
+                self._unions[(name, description)] = union
+                return union
             return graphql.GraphQLUnionType(name, types, description=description)
 
         return TypeFactory(factory)
